@@ -1,10 +1,59 @@
-"""Per property: the theorems (fully qualified Lean names) that decide it, audited with
-`#print axioms` on every run; and the trusted base recorded in the evidence."""
+"""Per property: the theorems (fully qualified Lean names) that decide it — every `theorem`
+declared in lean/Rrss/Thm/<Cxx>*.lean — audited with `#print axioms` on every run; and the
+trusted base recorded in the evidence."""
+import glob
+import os
+import re
 
-THEOREMS = {
-    'C09': ['Rrss.C09.execProgram_never_crashes', 'Rrss.C09.execProgram_initial_never_crashes', 'Rrss.C09.execProgram_result',
-            'Rrss.C09.interp_never_crashes', 'Rrss.C09.valOps_never_crash', 'Rrss.C09.poetic_computeValue_ok'],
-}
+_THM_DIR = os.path.join(os.path.dirname(os.path.dirname(os.path.abspath(__file__))), 'lean', 'Rrss', 'Thm')
+
+
+def _strip_comments(s):
+    out, i, depth, n = [], 0, 0, len(s)
+    while i < n:
+        if s.startswith('/-', i):
+            depth += 1; i += 2
+        elif depth and s.startswith('-/', i):
+            depth -= 1; i += 2
+        elif depth:
+            i += 1
+        elif s.startswith('--', i):
+            while i < n and s[i] != '\n':
+                i += 1
+        else:
+            out.append(s[i]); i += 1
+    return ''.join(out)
+
+
+def theorems_of(prop):
+    names = []
+    for f in sorted(glob.glob(os.path.join(_THM_DIR, prop + '*.lean'))):
+        ns = []
+        for line in _strip_comments(open(f).read()).split('\n'):
+            m = re.match(r'^namespace\s+(\S+)', line)
+            if m:
+                ns.append(m.group(1))
+                continue
+            m = re.match(r'^end\s+(\S+)', line)
+            if m and ns and ns[-1].split('.')[-1] == m.group(1).split('.')[-1]:
+                ns.pop()
+                continue
+            m = re.match(r'^(?:private\s+|protected\s+)?theorem\s+([^\s:({\[]+)', line)
+            if m:
+                names.append('.'.join(ns + [m.group(1)]))
+    return names
+
+
+class _Thms(dict):
+    def get(self, prop, default=None):
+        v = theorems_of(prop)
+        return v if v else (default if default is not None else [])
+
+    def __getitem__(self, prop):
+        return self.get(prop)
+
+
+THEOREMS = _Thms()
 
 _BASE = [
     "Lean 4.33.0 kernel; axioms propext, Classical.choice, Quot.sound only (audited per run)",
